@@ -694,14 +694,25 @@ fn race_script(seed: u64, draws: usize) -> (Vec<u32>, Vec<i64>) {
 /// reference streams: node creations on single threads of a fresh process, one thread after the other.  Stream 0
 /// (`n` draws) is what the first thread of a process observes, stream i (`per` draws) what the (i+1)-th thread that
 /// ever creates a node observes when nothing runs concurrently (sequential semantics are not in question).
+fn join_msg<T>(h: std::thread::JoinHandle<T>) -> Result<T, String> {
+    h.join().map_err(|e| {
+        if let Some(s) = e.downcast_ref::<&str>() { s.to_string() } else if let Some(s) = e.downcast_ref::<String>() { s.clone() } else { "panic".into() }
+    })
+}
+
 pub fn record_solo(n: usize, streams: usize, per: usize, out: &str) {
     let mut t = TraceWriter::create(out);
     for idx in 0..streams.max(1) {
         let k = if idx == 0 { n } else { per };
         let h = std::thread::spawn(move || (0..k).map(|_| TreapNode::new(TItem::new(1)).priority).collect::<Vec<u32>>());
-        let prios = h.join().unwrap();
-        for ch in prios.chunks(2000) {
-            t.ev(json!({"ev": "solo", "idx": idx, "prios": ch.iter().map(|&p| hi_lo(p)).collect::<Vec<_>>()}));
+        match join_msg(h) {
+            Ok(prios) => {
+                for ch in prios.chunks(2000) {
+                    t.ev(json!({"ev": "solo", "idx": idx, "prios": ch.iter().map(|&p| hi_lo(p)).collect::<Vec<_>>()}));
+                }
+            }
+            // node creation panicked on this (the idx-th) thread although nothing ran concurrently
+            Err(m) => t.ev(json!({"ev": "solo", "idx": idx, "prios": [], "panic": m})),
         }
     }
     let ev = t.finish();
@@ -738,14 +749,63 @@ pub fn record_race(seed: u64, threads: usize, draws: usize, out: &str) {
     }
     // the same scripts run alone, one after the other, on one fresh thread
     let seeds: Vec<u64> = (0..threads).map(|th| seed.wrapping_mul(1000).wrapping_add(th as u64)).collect();
-    let solo: Vec<Vec<i64>> = std::thread::spawn(move || seeds.iter().map(|&s| race_script(s, draws).1).collect()).join().unwrap();
-    for (th, r) in results.iter().enumerate() {
-        if let Ok((_, got)) = r {
-            t.ev(json!({"ev": "result", "t": th, "got": got, "solo": solo[th]}));
+    match join_msg(std::thread::spawn(move || seeds.iter().map(|&s| race_script(s, draws).1).collect::<Vec<Vec<i64>>>())) {
+        Ok(solo) => {
+            for (th, r) in results.iter().enumerate() {
+                if let Ok((_, got)) = r {
+                    t.ev(json!({"ev": "result", "t": th, "got": got, "solo": solo[th]}));
+                }
+            }
         }
+        Err(m) => t.ev(json!({"ev": "result", "t": threads, "got": [m], "solo": []})),
     }
     let ev = t.finish();
     println!("{}", json!({"events": ev, "threads": threads, "draws_per_thread": draws}));
+}
+
+/// Many rounds of `threads` fresh threads released together, each creating its first `per` nodes: the moment a
+/// thread's generator comes into being is where per-thread generators can interfere with each other.  One event.
+pub fn record_starts(rounds: usize, threads: usize, per: usize, out: &str) {
+    let mut t = TraceWriter::create(out);
+    let mut streams: Vec<Value> = vec![];
+    let mut panics: Vec<String> = vec![];
+    for _ in 0..rounds {
+        let barrier = std::sync::Arc::new(std::sync::Barrier::new(threads));
+        let hs: Vec<_> = (0..threads)
+            .map(|_| {
+                let b = barrier.clone();
+                std::thread::spawn(move || {
+                    b.wait();
+                    (0..per).map(|_| TreapNode::new(TItem::new(1)).priority).collect::<Vec<u32>>()
+                })
+            })
+            .collect();
+        for h in hs {
+            match join_msg(h) {
+                Ok(prios) => streams.push(json!(prios.iter().map(|&p| hi_lo(p)).collect::<Vec<_>>())),
+                Err(m) => panics.push(m),
+            }
+        }
+    }
+    t.ev(json!({"ev": "start_streams", "streams": streams, "panics": panics}));
+    let ev = t.finish();
+    println!("{}", json!({"events": ev, "threads": rounds * threads, "draws_per_thread": per}));
+}
+
+/// the reference for record_starts: `k` threads one after the other in a fresh process, `per` node creations each
+pub fn record_solo_streams(k: usize, per: usize, out: &str) {
+    let mut t = TraceWriter::create(out);
+    let mut streams: Vec<Value> = vec![];
+    let mut panics: Vec<String> = vec![];
+    for _ in 0..k {
+        match join_msg(std::thread::spawn(move || (0..per).map(|_| TreapNode::new(TItem::new(1)).priority).collect::<Vec<u32>>())) {
+            Ok(prios) => streams.push(json!(prios.iter().map(|&p| hi_lo(p)).collect::<Vec<_>>())),
+            Err(m) => panics.push(m),
+        }
+    }
+    t.ev(json!({"ev": "solo_streams", "streams": streams, "panics": panics}));
+    let ev = t.finish();
+    println!("{}", json!({"events": ev, "streams": k}));
 }
 
 pub fn probe(k: usize, per: usize) {
